@@ -128,7 +128,16 @@ static const char* const IP4S[] = {"1.2.3.4", "255.255.255.255", "0.0.0.0", "10.
     "1.2.3.44", "1.2.33.44", "1.22.33.44", "11.22.33.44", "111.22.33.44", "111.222.33.44", "111.222.133.44", "111.222.133.144", "9.10.99.100", "199.200.249.250", "100.101.25.26", "255.0.255.0", "192.0.2.1"};
 static const char* const IP6S[] = {"0000:0000:0000:0000:0000:ffff:192.0.2.1", "0000:0000:0000:0000:0000:0000:0000:0001", "FFFF:FFFF:FFFF:FFFF:FFFF:FFFF:255.255.255.255", "0000:0000:0000:0000:0000:0000:1.2.3.4", "::1", "::", "1:2:3:4:5:6:7:8", "1:2:3:4:5:6:1.2.3.4", "::ffff:1.2.3.4", "ABCD::EF01", "1::8", "1:2::7:8", "::2:3:4:5:6:7:8",
     "1:2:3:4:5:6:7::", "fe80::1", "::1.2.3.4", "1::1.2.3.4", "a:b:c:d:e:f:0:1", "0:0:0:0:0:0:0:0", "FFFF:ffff:FfFf:0:00:000:0000:1", "1:2:3:4:5::1.2.3.4", "::255.255.255.255"};
-static const char* const FUTURES[] = {"v1.x", "vF.a:b", "V7.AbC", "v0.!$&'()*+,;=", "vabc.DEF", "v1.~"};
+static const char* const FUTURES[] = {"v1.x", "vF.a:b", "V7.AbC", "v0.!$&'()*+,;=", "vabc.DEF", "v1.~", "v1._", "vA.a_B-c.9", "V09af.-._~", "v1.0123456789", "vf.Z_z:A_a"};
+static Str gen_future(Rng& rng) {     // 'v' 1*HEXDIG '.' 1*( unreserved / sub-delims / ':' ), every legal character reachable
+    static const char hx[] = "0123456789abcdefABCDEF";
+    static const char cs[] = "abcdefghijklmnopqrstuvwxyzABCDEFGHIJKLMNOPQRSTUVWXYZ0123456789-._~!$&'()*+,;=:";
+    Str s; s += rng.below(4) ? 'v' : 'V';
+    for (int i = 0, n = rng.range(1, 3); i < n; i++) s += hx[rng.below(22)];
+    s += '.';
+    for (int i = 0, n = rng.range(1, 9); i < n; i++) s += cs[rng.below(sizeof cs - 1)];
+    return s;
+}
 static const char* const PORTS[] = {"", "80", "0", "65536", "00080", "1", "443", "65535", "99999", "4294967296", "99999999999999999999", "2147483648"};
 static const char* const SEGS[] = {"C:", "c%7C", "URL:x", "file:", "%00", ".git", "~user", "", ".", "..", "a", "b", "b:c", "%2e", "%2E", "%41", "%7E", "%7e", "%3a", "%3A", "x;y", "a=b", "@", ":", "...", ".a", "a.", "~",
     "A", "%2e%2e", ".%2E", "c%2Fd", "%2F", "a%20b", "c", "d", "%61", "a:", ":a", "%C3%A4", "%c3%a4", "-", "_", "a+b", "a,b", "!$&'()*+,;="};
@@ -176,7 +185,7 @@ Str gen_host(Rng& rng) {
     case 0: case 1: case 2: case 3: return PICK(REGNAMES, rng);
     case 4: case 5: return PICK(IP4S, rng);
     case 6: case 7: return "[" + gen_ip6(rng) + "]";
-    case 8: return "[" + PICK(FUTURES, rng) + "]";
+    case 8: return "[" + (rng.below(2) ? Str(PICK(FUTURES, rng)) : gen_future(rng)) + "]";
     default: {  // random reg-name
         static const char cs[] = "abcXYZ019-._~!$&'()*+,;=%";
         Str s; int n = rng.range(0, 8);
